@@ -28,7 +28,11 @@ impl TryFrom<TirEnvelope> for AnyTir {
     fn try_from(envelope: TirEnvelope) -> Result<Self, Self::Error> {
         let version = TirVersion::try_from(envelope.version.as_str())?;
 
-        let bytes: Vec<u8> = envelope.into();
+        // the content comes from the client: a malformed encoding is an error, not a panic
+        let bytes = match envelope.encoding {
+            BytesEncoding::Base64 => base64_to_bytes(&envelope.content)?,
+            BytesEncoding::Hex => hex_to_bytes(&envelope.content)?,
+        };
 
         let tir = tx3_tir::encoding::from_bytes(&bytes, version)?;
 
